@@ -90,7 +90,7 @@ fn setup(seed: u64, name: &str) -> Setup {
     let a_tip = gen::extend_with_txs(&mut chain, 0, a_len, &p, rng, &mut tg);
     let fork_at = chain.ancestor_at(a_tip, (a_len - depth) as u64).unwrap();
     let b_tip = gen::extend_with_txs(&mut chain, fork_at, depth + rng.gen_range(1..=3), &p, rng, &mut tg);
-    let cfg = Config { last_n, max_outbound: 2, interval, blocks_in_transit: 1, ..Default::default() };
+    let cfg = Config { last_n, max_outbound: 2, interval, blocks_in_transit: 8, ..Default::default() };
     let buf = SharedBuf(Arc::new(Mutex::new(Vec::new())));
     let mut sim: Sim = new_sim(chain, cfg, 2, Box::new(buf.clone()), name, vec!["peersync", "filter"]);
     // peer 0 serves A's tip, peer 1 lags a little on A (it will announce B later)
@@ -249,7 +249,7 @@ fn fire(s: &mut Setup, op: Op) {
                 let p = s.env.peers[i].idx;
                 let req = s.sim.take_request(p, sim::as_get_blocks).unwrap();
                 let msgs = s.env.peers[i].server.blocks(&s.sim.chain, &req);
-                if let Some(m) = msgs.into_iter().next() {
+                if let Some(m) = lowest_block(msgs) {
                     s.env.deliver_block(&mut s.sim, i, m, "true");
                 }
             }
@@ -259,6 +259,15 @@ fn fire(s: &mut Setup, op: Op) {
         }
         Op::RD => {}
     }
+}
+
+/// The block with the lowest number of an answer to GetBlocks (the client lists the hashes in hash-map order,
+/// which differs from run to run: the three runs of an experiment must deliver the same block).
+fn lowest_block(msgs: Vec<packed::SyncMessage>) -> Option<packed::SyncMessage> {
+    msgs.into_iter().min_by_key(|m| match m.to_enum() {
+        packed::SyncMessageUnion::SendBlock(sb) => Unpack::<u64>::unpack(&sb.block().header().raw().number()),
+        _ => u64::MAX,
+    })
 }
 
 enum Raw {
@@ -305,7 +314,7 @@ fn raw(s: &mut Setup, op: Op) -> Raw {
             Some(i) => {
                 let p = s.env.peers[i].idx;
                 let req = s.sim.take_request(p, sim::as_get_blocks).unwrap();
-                match s.env.peers[i].server.blocks(&s.sim.chain, &req).into_iter().next() {
+                match lowest_block(s.env.peers[i].server.blocks(&s.sim.chain, &req)) {
                     Some(m) => Raw::Msg(Proto::Sync, p, m.as_bytes()),
                     None => Raw::Nothing,
                 }
@@ -518,7 +527,9 @@ fn core_state(s: &Setup) -> Value {
             if let Some((k, start)) = sim::filter_request(x) {
                 Some(format!("{}:{}:{}", x.peer.value(), k, start))
             } else if let Some(r) = sim::as_get_blocks(x) {
-                Some(format!("{}:blocks:{}", x.peer.value(), r.block_hashes().len()))
+                let mut ids: Vec<i64> = r.block_hashes().into_iter().map(|h| s.sim.chain.id_of(&h).map(|b| b as i64 + 1).unwrap_or(-1)).collect();
+                ids.sort();
+                Some(format!("{}:blocks:{:?}", x.peer.value(), ids))
             } else if sim::as_get_blocks_proof(x).is_some() {
                 Some(format!("{}:bproof", x.peer.value()))
             } else if sim::as_get_last_state_proof(x).is_some() {
